@@ -11,18 +11,13 @@ variable (P : Platform)
     name, then the parameters bound to the arguments in order -/
 theorem call_binds_positionally (f : Nat) (id : Nat) (args : List Val) (σ : Store) (cl : Closure)
     (hcl : σ.funs[id]? = some cl) (hn : cl.params.length ≤ args.length) :
-    let fe := σ.envs.length
-    let σ1 := (σ.newEnv (some cl.env)).1
-    let σ3 := (cl.params.zip args).foldl (fun s (p : Name × Val) => s.define fe p.1 p.2) (σ1.define fe cl.name (.fn id))
     callFn P (f + 1) id args σ =
-      match runBody P f cl.body fe σ3 with
-      | .ok v σ4 => .ok (v, .none) σ4
-      | .abn x => .abn x := by
-  intro fe σ1 σ3
+      (runBody P f cl.body σ.envs.length
+        ((cl.params.zip args).foldl (fun s (p : Name × Val) => s.define σ.envs.length p.1 p.2)
+          ((σ.newEnv (some cl.env)).1.define σ.envs.length cl.name (.fn id)))).bind fun v σ4 => .ok (v, .none) σ4 := by
   rw [callFn]; simp only [hcl]
   have : ¬ args.length < cl.params.length := by omega
-  simp [this, Store.newEnv]
-  rfl
+  simp [this]
 
 /-- the activation frame is new: no earlier frame is replaced by its allocation -/
 theorem activation_fresh (σ : Store) (parent : Option Nat) :
@@ -38,7 +33,7 @@ theorem activation_fresh (σ : Store) (parent : Option Nat) :
 theorem return_ends_body (f : Nat) (s : Stmt) (ss : List Stmt) (env : Nat) (σ σ1 : Store) (x : Val) (l : Nat) (w : Val)
     (hs : evalS P f s env false σ = .ok (w, .ret l x) σ1) :
     runBody P (f + 1) (s :: ss) env σ = .ok x σ1 := by
-  rw [runBody]; simp only [hs]
+  rw [runBody]; simp only [guardErr, ER.seq, Res.bind, hs]
 
 theorem no_return_nil (f : Nat) (env : Nat) (σ : Store) : runBody P (f + 1) [] env σ = .ok .nil σ := by
   rw [runBody]
@@ -46,7 +41,7 @@ theorem no_return_nil (f : Nat) (env : Nat) (σ : Store) : runBody P (f + 1) [] 
 theorem body_continues_without_signal (f : Nat) (s : Stmt) (ss : List Stmt) (env : Nat) (σ σ1 : Store) (w : Val)
     (hs : evalS P f s env false σ = .ok (w, .none) σ1) :
     runBody P (f + 1) (s :: ss) env σ = runBody P f ss env σ1 := by
-  rw [runBody]; simp only [hs]
+  rw [runBody]; simp only [guardErr, ER.seq, Res.bind, hs]
 
 /-- `ফেরত` raises a return signal carrying the value; blocks, branches and both loops hand it upward unchanged -/
 theorem return_signal (f : Nat) (e : Expr) (line env : Nat) (repl : Bool) (σ σ1 : Store) (x : Val)
@@ -54,25 +49,25 @@ theorem return_signal (f : Nat) (e : Expr) (line env : Nat) (repl : Bool) (σ σ
     evalS P (f + 1) (.returnS line (some e)) env repl σ = .ok (.nil, .ret line x) σ1 ∧
     evalS P (f + 1) (.returnS line none) env repl σ = .ok (.nil, .ret line .nil) σ := by
   constructor
-  · rw [evalS]; simp only [h0, he]; simp
-  · rw [evalS]; simp [h0]
+  · rw [evalS]; simp only [guardErr, ER.seq, Res.bind, h0, he]; simp
+  · rw [evalS]; simp [guardErr, ER.seq, Res.bind, h0]
 
 theorem return_through_block (f : Nat) (s : Stmt) (ss : List Stmt) (env : Nat) (repl : Bool) (σ σ1 : Store) (w x : Val) (l : Nat)
     (hs : evalS P f s env repl σ = .ok (w, .ret l x) σ1) :
     evalBlock P (f + 1) (s :: ss) env repl σ = .ok (.nil, .ret l x) σ1 := by
-  rw [evalBlock]; simp only [hs]; simp
+  rw [evalBlock]; simp only [guardErr, ER.seq, Res.bind, hs]; simp
 
 theorem return_through_while (f : Nat) (c : Expr) (b : Stmt) (env : Nat) (repl : Bool) (σ σ1 σ2 : Store) (cv w x : Val) (l : Nat)
     (hc : evalE P f c env repl σ = .ok (cv, .none) σ1) (ht : truthy cv = true)
     (hb : evalS P f b env repl σ1 = .ok (w, .ret l x) σ2) :
     whileLoop P (f + 1) c b env repl σ = .ok (.nil, .ret l x) σ2 := by
-  rw [whileLoop]; simp only [hc, hb]; simp [ht]
+  rw [whileLoop]; simp only [guardErr, ER.seq, Res.bind, hc, hb]; simp [guardErr, ER.seq, Res.bind, ht]
 
 theorem return_through_for (f : Nat) (c : Expr) (inc : Option Expr) (b : Stmt) (env : Nat) (repl : Bool) (σ σ1 σ2 : Store) (cv w x : Val) (l : Nat)
     (hc : evalE P f c env repl σ = .ok (cv, .none) σ1) (ht : truthy cv = true)
     (hb : evalS P f b env repl σ1 = .ok (w, .ret l x) σ2) :
     forLoop P (f + 1) c inc b env repl σ = .ok (.nil, .ret l x) σ2 := by
-  rw [forLoop]; simp only [hc, hb]; simp [ht]
+  rw [forLoop]; simp only [guardErr, ER.seq, Res.bind, hc, hb]; simp [guardErr, ER.seq, Res.bind, ht]
 
 /-- calling something that is not a function, or a function with the wrong number of arguments, is a
     runtime error at the call's closing parenthesis; the callee is not entered -/
@@ -84,14 +79,14 @@ theorem call_errors (f : Nat) (c : Expr) (args : List Expr) (line env : Nat) (re
       ∃ m, evalE P (f + 1) (.call c line args) env repl σ = .ok (.nil, .none) (σ1.rte m line)) := by
   constructor
   · intro h1 h2
-    rw [evalE]; simp only [h0, hc]
-    cases cv <;> simp [nilOk] at h1 h2 ⊢
+    rw [evalE]; simp only [guardErr, ER.seq, Res.bind, h0, hc]
+    cases cv <;> simp [nilOk, arityOf] at h1 h2 ⊢
   · intro id cl hcv hcl hne
     subst hcv
-    rw [evalE]; simp only [h0, hc]
+    rw [evalE]; simp only [guardErr, ER.seq, Res.bind, h0, hc]
     have h1 : ¬ (args.length : Int) = (cl.params.length : Int) := by omega
     have h2 : ¬ (cl.params.length : Int) = -1 := by omega
-    simp only [hcl, Option.map_some, ne_eq, h1, h2, not_false_eq_true, Bool.and_self, decide_true, if_true,
+    simp only [arityOf, hcl, Option.map_some, ne_eq, h1, h2, not_false_eq_true, Bool.and_self, decide_true, if_true,
       Bool.false_eq_true, if_false, not_true_eq_false, nilOk, bne_iff_ne, Bool.and_eq_true, decide_eq_true_eq, and_self]
     exact ⟨_, rfl⟩
 
@@ -103,7 +98,7 @@ theorem declaration_captures_current_scope (f : Nat) (name : Name) (ps : List Na
       σ'.funs = σ.funs ++ [⟨name, ps, body, σ.envs.length⟩] ∧
       σ'.envs.length = σ.envs.length + 1 ∧
       σ'.envs[σ.envs.length]? = some ⟨[], some env⟩ := by
-  refine ⟨_, by rw [evalS]; simp [h0, nilOk, Store.newEnv, Store.newFun]; rfl, ?_, ?_, ?_⟩
+  refine ⟨_, by rw [evalS]; simp [guardErr, ER.seq, Res.bind, h0, nilOk, Store.newEnv, Store.newFun]; rfl, ?_, ?_, ?_⟩
   · simp [Store.define, Store.newEnv, Store.newFun]
     split <;> rfl
   · simp [Store.define, Store.newEnv, Store.newFun]
